@@ -427,6 +427,9 @@ def check(run):
         run.check(q.any_precedes(r1, mine, c), 'R4', 'counted-before-dispatch', '%s: %s' % (C + '::on_request1', (q.callee_name(c) or '').split('::')[-1]), r1.loc(c),
                   'a request is dispatched on a path that did not count it', 'an increment dominates the dispatch')
     run.notes.append('sinks analysed: %d' % nsink)
+    run.clause('no length test or scan is bounded by a signed difference converted to unsigned (a short message must fail the test, not wrap it)')
+    nsd = engines.signed_difference_compares(run, [f_ for f_ in fx.repo_functions(raw=True) if f_.file.endswith('socks_server.cpp') and f_.cfg is not None])
+    run.ok('R11', 'unsigned-compare-of-difference', 'scan', '', 'relational comparisons with a signed operand converted to unsigned in socks_server.cpp: %d' % nsd, nontrivial=False)
     if nsink < 30:
         run.broke('only %d sinks found in socks_connection (about 60 confirmed by hand)' % nsink)
 
